@@ -454,29 +454,30 @@ where
         edge: &EdgeOfFunc<'id, Self>,
         args: impl IntoIterator<Item = (VarNo, bool)>,
     ) -> T {
-        // `choices` maps levels to the child number to choose
-        let mut choices = FixedBitSet::with_capacity(manager.num_levels() as usize);
+        // `values` maps levels to the value of the respective variable
+        // (`false` for variables without a value in `args`)
+        let mut values = FixedBitSet::with_capacity(manager.num_levels() as usize);
         for (var, val) in args {
-            // child 0 is "then"/"true", hence the negation
-            choices.set(manager.var_to_level(var) as usize, !val);
+            values.set(manager.var_to_level(var) as usize, val);
         }
 
         #[inline] // this function is tail-recursive
-        fn inner<M, T: Clone>(manager: &M, edge: Borrowed<M::Edge>, choices: &FixedBitSet) -> T
+        fn inner<M, T: Clone>(manager: &M, edge: Borrowed<M::Edge>, values: &FixedBitSet) -> T
         where
             M: Manager<Terminal = T>,
             M::InnerNode: HasLevel,
         {
             match manager.get_node(&edge) {
                 Node::Inner(node) => {
-                    let edge = node.child(choices.contains(node.level() as usize) as usize);
-                    inner(manager, edge, choices)
+                    // child 0 is "then"/"true", hence the negation
+                    let edge = node.child(!values.contains(node.level() as usize) as usize);
+                    inner(manager, edge, values)
                 }
                 Node::Terminal(t) => t.borrow().clone(),
             }
         }
 
-        inner(manager, edge.borrowed(), &choices)
+        inner(manager, edge.borrowed(), &values)
     }
 }
 
